@@ -707,7 +707,10 @@ def r19_4(chk: Check) -> None:
     chk.touch(f.name)
     calls = [c for c in calls_in(f.node, "derivative") if dotted(c.func) in ("derivative", "helpers.derivative")]
     if not calls:
-        raise AnchorMissing("EffectivePotential.derivT does not call helpers.derivative")
+        # helpers.derivative is the only finite-difference routine with one-sided stencils near a bound (gradient / hessian are central only)
+        chk.ob("R19.4", f.where(), "derivT passes bounds=(0, inf): the potential is never evaluated at negative temperature", False,
+               "derivT no longer differentiates with helpers.derivative (the only routine that honours bounds)", key="derivT|bounds")
+        return
     cx = Ctx(chk.src, f)
     c = calls[0]
     b = kwarg(c, "bounds", 4)
@@ -745,8 +748,9 @@ def r19_4(chk: Check) -> None:
 
 
 def rules(chk: Check) -> None:
-    tabs = _tables(chk)
-    r19_1(chk, tabs)
-    r19_2(chk, tabs)
-    r19_3(chk)
-    r19_4(chk)
+    tabs = chk.stage(_tables, chk)
+    if tabs is not None:
+        chk.stage(r19_1, chk, tabs)
+        chk.stage(r19_2, chk, tabs)
+    chk.stage(r19_3, chk)
+    chk.stage(r19_4, chk)
